@@ -1,4 +1,5 @@
 import HsVerif.Model.Bytes
+import HsVerif.Proofs.BytesInj
 /-! C12 / C02 / C13, the bytes that are hashed and signed (Model/Bytes.lean) determine the object.
 Property theorems only. -/
 namespace HsVerif.Props.C12Bytes
@@ -42,5 +43,179 @@ theorem old_qc_bytes_ambiguous :
     qcBytesOld ⟨3, exHash, none⟩ = qcBytesOld ⟨3, exHash, some (.multi [])⟩ ∧
     qcBytes ⟨3, exHash, some (.agg [1, 2, 3] [9, 9])⟩ ≠ qcBytes ⟨3, exHash, some (.agg [1, 2, 4] [9, 9])⟩ ∧
     qcBytes ⟨3, exHash, none⟩ ≠ qcBytes ⟨3, exHash, some (.multi [])⟩ := by decide +kernel
+
+/-! ### the current layouts are injective
+
+Well-formedness (Proofs/BytesInj.lean) is what Go's types give: `Part.WF` (id `< 2^32`, signature shorter
+than `2^32`), `QSig.WF` (fewer than `2^32` participants, ids `< 2^32`, parts well formed), `QCv.WF` (view
+`< 2^64`, hash of 32 bytes, signature well formed), `Cmd.WF` (client `< 2^32`, sequence number `< 2^64`,
+data shorter than `2^32`), `Blk.WF` (parent of 32 bytes, proposer `< 2^32`, view and timestamp `< 2^64`,
+batch shorter than `2^64`, commands and certificate well formed).  `QCv.OfScheme sch`: the certificate is
+unsigned or signed in scheme `sch` (multi-signature / aggregate).  Signature bytes and command data are
+arbitrary naturals (nothing that is parsed depends on them being `< 256`). -/
+
+/-- 1. fixed-width little-endian fields -/
+theorem le_length (n x : Nat) : (le n x).length = n := Model.Bytes.le_length n x
+
+theorem le_injective {n x y : Nat} (hx : x < 256 ^ n) (hy : y < 256 ^ n) (h : le n x = le n y) : x = y :=
+  Model.Bytes.le_injective hx hy h
+
+/-- 2. **a multi-signature's bytes determine its parts** (signers, cuts, order) -/
+theorem multiBytes_injective {ps ps' : List Part} (hw : ∀ p ∈ ps, p.WF) (hw' : ∀ p ∈ ps', p.WF)
+    (h : multiBytes ps = multiBytes ps') : ps = ps' := Model.Bytes.multiBytes_injective hw hw' h
+
+/-- in front of other bytes a multi-signature is delimited by the NUMBER of its parts (written first by
+`qcBytes`): the same number of parts — the parts and the rest are determined -/
+theorem multiBytes_append_injective {ps ps' : List Part} {r r' : Bytes}
+    (hw : ∀ p ∈ ps, p.WF) (hw' : ∀ p ∈ ps', p.WF) (hl : ps.length = ps'.length)
+    (h : multiBytes ps ++ r = multiBytes ps' ++ r') : ps = ps' ∧ r = r' :=
+  Model.Bytes.multiBytes_append_inj hw hw' hl h
+
+/-- … and not without the count: one part followed by the bytes of another reads as two parts -/
+theorem multi_needs_the_count :
+    multiBytes [⟨1, [0xaa]⟩] ++ multiBytes [⟨2, [0xbb]⟩] = multiBytes [⟨1, [0xaa]⟩, ⟨2, [0xbb]⟩] ++ [] ∧
+    [(⟨1, [0xaa]⟩ : Part)] ≠ [⟨1, [0xaa]⟩, ⟨2, [0xbb]⟩] := by decide +kernel
+
+/-- 3. **a certificate's bytes determine it**: view, hash, whether it is signed, who signed, the
+signature — among well-formed certificates of one scheme -/
+theorem qcBytes_injective {q q' : QCv} {sch : Scheme} (hw : q.WF) (hw' : q'.WF)
+    (hs : q.OfScheme sch) (hs' : q'.OfScheme sch) (h : qcBytes q = qcBytes q') : q = q' :=
+  Model.Bytes.qcBytes_injective hw hw' hs hs' h
+
+/-- the scheme is a hypothesis for a reason: an aggregate attributed to replica 1 whose bytes look like
+one part of replica 1 IS a multi-signature of replica 1, byte for byte (both well formed) -/
+theorem qc_multi_vs_agg_same_bytes :
+    let qm : QCv := ⟨3, exHash, some (.multi [⟨1, [0xaa, 0xbb]⟩])⟩
+    let qa : QCv := ⟨3, exHash, some (.agg [1] [1, 0, 0, 0, 2, 0, 0, 0, 0xaa, 0xbb])⟩
+    qm ≠ qa ∧ qm.WF ∧ qa.WF ∧ qcBytes qm = qcBytes qa := by decide +kernel
+
+/-- inside a block (the rest is the 8-byte timestamp): rests of equal length -/
+theorem qcBytes_append_injective {q q' : QCv} {sch : Scheme} {r r' : Bytes} (hw : q.WF) (hw' : q'.WF)
+    (hs : q.OfScheme sch) (hs' : q'.OfScheme sch) (hr : r.length = r'.length)
+    (h : qcBytes q ++ r = qcBytes q' ++ r') : q = q' ∧ r = r' :=
+  Model.Bytes.qcBytes_append_inj hw hw' hs hs' hr h
+
+/-- for certificates that are signed with multi-signatures no hypothesis on the rests is needed -/
+theorem qcBytes_multi_append_injective {v v' : Nat} {h h' : Bytes} {ps ps' : List Part} {r r' : Bytes}
+    (hw : (QCv.mk v h (some (.multi ps))).WF) (hw' : (QCv.mk v' h' (some (.multi ps'))).WF)
+    (e : qcBytes ⟨v, h, some (.multi ps)⟩ ++ r = qcBytes ⟨v', h', some (.multi ps')⟩ ++ r') :
+    v = v' ∧ h = h' ∧ ps = ps' ∧ r = r' := by
+  rw [Model.Bytes.qcBytes_eq, Model.Bytes.qcBytes_eq] at e
+  simp only [List.append_assoc] at e
+  obtain ⟨e1, e⟩ := Model.Bytes.u64_append_inj hw.1 hw'.1 e
+  obtain ⟨e2, e⟩ := List.append_inj e (by rw [hw.2.1, hw'.2.1])
+  obtain ⟨e3, e⟩ := Model.Bytes.sigTail_multi_append_inj hw.2.2 hw'.2.2 e
+  exact ⟨e1, e2, e3, e⟩
+
+/-- … but in general a certificate is NOT self-delimiting: an aggregate runs to the end of the bytes,
+and an unsigned certificate followed by four zero bytes reads as one with an empty multi-signature -/
+theorem qc_is_not_self_delimiting :
+    qcBytes ⟨3, exHash, some (.agg [1] [9])⟩ ++ [7] = qcBytes ⟨3, exHash, some (.agg [1] [9, 7])⟩ ++ [] ∧
+    qcBytes ⟨3, exHash, none⟩ ++ u32 0 = qcBytes ⟨3, exHash, some (.multi [])⟩ ++ [] := by decide +kernel
+
+/-- 4. a partial certificate's bytes determine the hash and the signature BYTES … -/
+theorem pcBytes_injective_bytes {h h' : Bytes} {s s' : QSig} (hh : h.length = 32) (hh' : h'.length = 32)
+    (e : pcBytes h s = pcBytes h' s') : h = h' ∧ s.bytes = s'.bytes := Model.Bytes.pcBytes_inj_bytes hh hh' e
+
+/-- … so with multi-signatures (whose bytes name the signers) the partial certificate … -/
+theorem pcBytes_injective {h h' : Bytes} {ps ps' : List Part} (hh : h.length = 32) (hh' : h'.length = 32)
+    (hw : ∀ p ∈ ps, p.WF) (hw' : ∀ p ∈ ps', p.WF)
+    (e : pcBytes h (.multi ps) = pcBytes h' (.multi ps')) : h = h' ∧ QSig.multi ps = QSig.multi ps' :=
+  Model.Bytes.pcBytes_injective hh hh' hw hw' e
+
+/-- … and with aggregates NOT the signer: `PartialCert.ToBytes` of a BLS signature is hash and point, the
+same whoever it is attributed to (`QuorumCert.ToBytes` was like this before 9a59775).  Harmless as long
+as these bytes are neither hashed nor signed. -/
+theorem pc_agg_bytes_do_not_name_the_signer :
+    pcBytes exHash (.agg [1] [9, 9]) = pcBytes exHash (.agg [2] [9, 9]) ∧
+    QSig.agg [1] [9, 9] ≠ QSig.agg [2] [9, 9] ∧ (QSig.agg [1] [9, 9]).WF ∧ (QSig.agg [2] [9, 9]).WF := by
+  decide +kernel
+
+theorem pcBytes_injective_agg {h h' : Bytes} {ids ids' : List Nat} {b b' : Bytes}
+    (hh : h.length = 32) (hh' : h'.length = 32)
+    (e : pcBytes h (.agg ids b) = pcBytes h' (.agg ids' b')) : h = h' ∧ b = b' :=
+  Model.Bytes.pcBytes_injective_agg hh hh' e
+
+/-- **a timeout message's bytes (what its sender signs under the aggregate rule) determine sender, view
+and the certificate it reports** — present or not, and which -/
+theorem tmoBytes_injective {id id' view view' : Nat} {qc qc' : Option QCv} {sch : Scheme}
+    (hid : id < 2 ^ 32) (hid' : id' < 2 ^ 32) (hv : view < 2 ^ 64) (hv' : view' < 2 ^ 64)
+    (hw : ∀ q, qc = some q → q.WF) (hw' : ∀ q, qc' = some q → q.WF)
+    (hs : ∀ q, qc = some q → q.OfScheme sch) (hs' : ∀ q, qc' = some q → q.OfScheme sch)
+    (h : tmoBytes id view qc = tmoBytes id' view' qc') : id = id' ∧ view = view' ∧ qc = qc' :=
+  Model.Bytes.tmoBytes_injective hid hid' hv hv' hw hw' hs hs' h
+
+/-- 5. protobuf varints: with ten groups the model's `varint` is exact below `128^10 = 2^70` (every
+`uint64`, every length), injective and prefix-free there … -/
+theorem varint_append_injective {a b : Nat} {r r' : Bytes} (ha : a < 2 ^ 70) (hb : b < 2 ^ 70)
+    (h : varint a ++ r = varint b ++ r') : a = b ∧ r = r' := Model.Bytes.varint_append_inj ha hb h
+
+theorem varint_injective {a b : Nat} (ha : a < 2 ^ 70) (hb : b < 2 ^ 70) (h : varint a = varint b) : a = b :=
+  Model.Bytes.varint_injective ha hb h
+
+/-- … and not beyond (the tenth group is cut to 7 bits) -/
+theorem varint_not_injective_beyond : varint (2 ^ 63) = varint (2 ^ 63 + 2 ^ 70) := by decide +kernel
+
+/-- **a command's proto3 bytes determine it** -/
+theorem cmdBytes_injective {c c' : Cmd} (hw : c.WF) (hw' : c'.WF) (h : cmdBytes c = cmdBytes c') : c = c' :=
+  Model.Bytes.cmdBytes_injective hw hw' h
+
+/-- **a batch's bytes determine the commands** -/
+theorem batchBytes_injective {cs cs' : List Cmd} (hw : ∀ c ∈ cs, c.WF) (hw' : ∀ c ∈ cs', c.WF)
+    (h : batchBytes cs = batchBytes cs') : cs = cs' := Model.Bytes.batchBytes_injective hw hw' h
+
+/-- 6. **The bytes of a block — what its hash is the SHA-256 of — determine the block**: parent,
+proposer, view, commands, certificate, timestamp; among well-formed blocks whose certificates are of
+one scheme.  `old_block_bytes_ambiguous`: false of the layout without the length of the batch. -/
+theorem blockBytes_injective {b b' : Blk} {sch : Scheme} (hw : b.WF) (hw' : b'.WF)
+    (hs : b.qc.OfScheme sch) (hs' : b'.qc.OfScheme sch) (h : blockBytes b = blockBytes b') : b = b' :=
+  Model.Bytes.blockBytes_injective hw hw' hs hs' h
+
+/-- content addressing from collision freedom: a hash function without a collision on the bytes of the
+two blocks — equal hashes, equal blocks -/
+theorem block_hash_determines_block {H : Bytes → Bytes} {b b' : Blk} {sch : Scheme} (hw : b.WF) (hw' : b'.WF)
+    (hs : b.qc.OfScheme sch) (hs' : b'.qc.OfScheme sch)
+    (nocoll : H (blockBytes b) = H (blockBytes b') → blockBytes b = blockBytes b')
+    (h : H (blockBytes b) = H (blockBytes b')) : b = b' :=
+  blockBytes_injective hw hw' hs hs' (nocoll h)
+
+/-- 7. the hypotheses are not vacuous: the example objects above are well formed (so
+`block_bytes_tell_them_apart` is an instance of `blockBytes_injective`) -/
+theorem examples_well_formed :
+    exQC1.WF ∧ exQC1.OfScheme .multi ∧ exBlk1.WF ∧ exBlk2.WF ∧
+    exBlk1.qc.OfScheme .multi ∧ exBlk2.qc.OfScheme .multi ∧
+    (QCv.mk 3 exHash (some (.agg [1, 2, 3] [9, 9]))).WF ∧
+    (QCv.mk 3 exHash (some (.agg [1, 2, 3] [9, 9]))).OfScheme .agg ∧
+    (∀ c ∈ exBlk2.cmds, c.WF) ∧ (Cmd.mk 7 300 [1, 2, 3]).WF := by decide +kernel
+
+/-! ### across kinds: what is signed is a view (8 bytes), a timeout message or a block -/
+
+theorem signed_bytes_lengths (v id view : Nat) (qc : Option QCv) {b : Blk} (hw : b.WF) :
+    (u64 v).length = 8 ∧ 12 ≤ (tmoBytes id view qc).length ∧ 100 ≤ (blockBytes b).length :=
+  ⟨Model.Bytes.u64_length v, Model.Bytes.tmoBytes_length_ge id view qc, Model.Bytes.blockBytes_length_ge hw⟩
+
+def exBlk3 : Blk :=
+  ⟨[1, 0, 0, 0] ++ u64 9 ++ u64 4 ++ (List.range 12).map (0xc0 + ·), 2, 5, [], ⟨0, exHash, none⟩,
+    1700000000000000000⟩
+def exTmoQC : QCv :=
+  ⟨4, (List.range 12).map (0xc0 + ·) ++ u32 2 ++ u64 5 ++ u64 0,
+    some (.agg [] (u32 0 ++ exHash ++ u64 1700000000000000000))⟩
+
+/-- The layouts carry no tag saying WHAT is encoded: the bytes of a block without commands whose
+certificate has view 0 (a child of genesis) are also the bytes of a timeout message — sender: the first
+4 bytes of the parent hash, view: the next 8, reporting a certificate with an aggregate of no
+participants.  Both objects well formed. -/
+theorem block_vs_timeout_same_bytes :
+    exBlk3.WF ∧ exTmoQC.WF ∧ blockBytes exBlk3 = tmoBytes 1 9 (some exTmoQC) := by decide +kernel
+
+def exHash4 : Bytes := [0, 0, 0, 0, 32, 0, 0, 0] ++ (List.range 24).map (0xd0 + ·)
+def exBlk4 : Blk := { exBlk3 with qc := ⟨1, exHash4, none⟩ }
+def exTmoQC4 : QCv :=
+  { exTmoQC with sig := some (.multi [⟨0, (List.range 24).map (0xd0 + ·) ++ u64 1700000000000000000⟩]) }
+
+/-- the same with a multi-signature: the certificate of the block has view 1 (read as: one participant)
+and a hash that reads as signer 0 and the length of what is left -/
+theorem block_vs_timeout_same_bytes_multi :
+    exBlk4.WF ∧ exTmoQC4.WF ∧ blockBytes exBlk4 = tmoBytes 1 9 (some exTmoQC4) := by decide +kernel
 
 end HsVerif.Props.C12Bytes
